@@ -139,10 +139,14 @@ static void dumpAny(const codec::BinaryCodec* v, std::vector<std::string>& out);
 		fmt.Fprintf(&b, "  if (auto x = dynamic_cast<const %s*>(v)) { out.push_back(%q); dump_%s(*x, out); return; }\n", strcase.ToCamel(k.Name), k.Name, k.Name)
 	}
 	b.WriteString("  out.push_back(\"?unknown\");\n}\n")
-	b.WriteString("static void setChecksums(bool on) {\n  ChecksumServiceContext::instance().clear();\n  if (!on) return;\n")
+	b.WriteString("static bool wideSum = false;\nstatic void setChecksums(bool on) {\n  ChecksumServiceContext::instance().clear();\n  if (!on) return;\n")
 	algs := Algs(p)
 	for _, a := range sortedKeys(algs) {
-		fmt.Fprintf(&b, "  ChecksumServiceContext::instance().reg(%q, [](const std::vector<uint8_t>& d) { uint32_t h = 7; for (auto c : d) h = (h * 131u + c + 1u) & 0x7fffffffu; if ((h & 7u) == 0) h = 0; return (uint64_t)h; });\n", a)
+		wide := "false"
+		if dsl.ScalarSize(algs[a]) == 8 {
+			wide = "wideSum"
+		}
+		fmt.Fprintf(&b, "  ChecksumServiceContext::instance().reg(%q, [](const std::vector<uint8_t>& d) { uint32_t h = 7; for (auto c : d) h = (h * 131u + c + 1u) & 0x7fffffffu; if ((h & 7u) == 0) h = 0; return (%s) ? (uint64_t)h * 0x100000001ull : (uint64_t)h; });\n", a, wide)
 	}
 	b.WriteString("}\n")
 	b.WriteString(`
@@ -150,7 +154,7 @@ static std::string handle(const std::string& line) {
   std::vector<std::string> parts; { size_t pos = 0; for (int k = 0; k < 3; k++) { size_t sp = line.find(' ', pos); if (sp == std::string::npos) break; parts.push_back(line.substr(pos, sp - pos)); pos = sp + 1; } parts.push_back(line.substr(pos)); }
   std::string id = parts.size() > 1 ? parts[1] : "-";
   try {
-    if (parts[0] == "CKS") { setChecksums(parts[1] == "1"); return "R - ok"; }
+    if (parts[0] == "CKS") { wideSum = parts[1] == "2"; setChecksums(parts[1] != "0"); return "R - ok"; }
     if (parts[0] == "REUSE") { reuse = parts[1] == "1"; return "R - ok"; }
     if (parts[0] == "ENC") {
       Toks tk; std::istringstream is(parts[2] + " " + (parts.size() > 3 ? parts[3] : "")); std::string w; while (is >> w) tk.t.push_back(w);
